@@ -287,7 +287,14 @@ pub fn finish(
         .collect();
 
     let distinct_outcomes = acc.outcomes.len() as u64;
-    let samples: Vec<Value> = acc.samples.values().cloned().collect();
+    let mut samples: Vec<Value> = acc.samples.values().cloned().collect();
+    if samples.is_empty() {
+        // nothing was sampled on the agreeing side (e.g. every case violated): show what was explored
+        samples = acc.violations.iter().take(3).map(|v| json!({"violating_case": v.case, "what": v.what})).collect();
+    }
+    if samples.is_empty() {
+        samples.push(json!({"note": "no case was sampled in this run", "spaces": acc.spaces}));
+    }
     let mut coverage = json!({
         "evaluations": acc.evaluations,
         "distinct_nontrivial": acc.nontrivial,
